@@ -406,7 +406,34 @@ fn gen_real(rng: &mut Rng) -> Lit {
     if rng.chance(1, 3) {
         return hard_real(rng);
     }
-    let clean = match rng.below(3) {
+    let clean = match rng.below(4) {
+        3 => {
+            // around and beyond the largest double, in every lexical form of a real literal
+            // (integer part only, both parts, trailing dot, leading dot): the value either is
+            // representable (just below the boundary) or must be rejected (overflow)
+            let mant = *rng.pick(&["17976931348623157", "17976931348623159", "18", "1", "5", "9", "25", "179769313486231570000001"]);
+            let shift = rng.below(mant.len().min(4) + 1); // digits before the '.'
+            let (ip, fp) = mant.split_at(shift);
+            // value = 0.mant * 10^(shift + e); 0.1797..e309 is the boundary
+            let exp10 = match rng.below(6) {
+                0 => 309,
+                1 => 308,
+                2 => 310 + rng.below(20) as i64,
+                3 => 400,
+                4 => *rng.pick(&[1000i64, 99999, 4000000000]),
+                _ => 300 + rng.below(12) as i64,
+            };
+            let e = exp10 - shift as i64;
+            let body = match (ip.is_empty(), rng.below(3)) {
+                (true, _) => format!(".{fp}"),
+                (false, 0) if fp.is_empty() => format!("{ip}"),
+                (false, 1) if fp.is_empty() => format!("{ip}."),
+                (false, _) if fp.is_empty() => format!("{ip}.0"),
+                (false, _) => format!("{ip}.{fp}"),
+            };
+            let sign = *rng.pick(&["", "+"]);
+            format!("{body}{}{sign}{e}", *rng.pick(&["e", "E"]))
+        }
         0 => rng.pick(REAL_CLEAN).to_string(),
         1 => {
             // digits '.' digits [e[+-]digits]
